@@ -11,14 +11,14 @@ impl MadeHand {
 
     pub fn hand_type(&self) -> MadeHandType {
         match self.0 {
-            0..=9 => MadeHandType::StraightFlush,
-            10..=165 => MadeHandType::Quads,
-            166..=321 => MadeHandType::FullHouse,
-            322..=1598 => MadeHandType::Flush,
-            1599..=1608 => MadeHandType::Straight,
-            1609..=2466 => MadeHandType::Trips,
-            2467..=3324 => MadeHandType::TwoPair,
-            3325..=6184 => MadeHandType::Pair,
+            0..=10 => MadeHandType::StraightFlush,
+            11..=166 => MadeHandType::Quads,
+            167..=322 => MadeHandType::FullHouse,
+            323..=1599 => MadeHandType::Flush,
+            1600..=1609 => MadeHandType::Straight,
+            1610..=2467 => MadeHandType::Trips,
+            2468..=3325 => MadeHandType::TwoPair,
+            3326..=6185 => MadeHandType::Pair,
             _ => MadeHandType::HighCard,
         }
     }
